@@ -324,10 +324,12 @@ class HTTPConnectionPool(ConnectionPool, RequestMethods):
                         "Pool reached maximum size and no more connections are allowed.",
                     ) from None
 
+                # The pool may have been closed by another thread in the meantime.
+                pool = self.pool
                 log.warning(
                     "Connection pool is full, discarding connection: %s. Connection pool size: %s",
                     self.host,
-                    self.pool.qsize(),
+                    pool.qsize() if pool is not None else 0,
                 )
 
         # Connection never got put back into the pool, close it.
